@@ -44,6 +44,45 @@ def ref_poly(L, z):
     return sp.expand(out)
 
 
+def check_shared_momenta(repo, chk):
+    """what a decay vertex writes into the per-decay dictionary is read by the resonance line shapes: the nominal
+    momentum there is the physical one, whatever barrier option the vertex uses for itself"""
+    CORE_ = "tf_pwa/amp/core.py"
+    cls = repo.cls(CORE_ + "::HelicityDecay")
+    fn = cls.methods.get("get_ls_amp")
+    if fn is None:
+        raise AnalysisError("anchor vanished: HelicityDecay.get_ls_amp")
+    chk.rule("Q-shared", "HelicityDecay.get_ls_amp interpreted with each barrier option of the vertex (no_q0, has_barrier_factor) on and off: the entries it leaves in the shared per-decay dictionary are |q0|^2 = get_relative_momentum2(nominal masses) and |q|^2 = get_relative_momentum2(event masses) - the q^2-based line shapes (BWR2, BWR_normal, BWR_LS ...) normalise their running width with them, so an option of the vertex must not rewrite them")
+    Q0, Q = sp.symbols("Q0SQ QSQ", positive=True)
+    core = SelfObj(None, {"tag": "core"})
+    n = 0
+    for no_q0 in (False, True):
+        for hbf in (True, False):
+            hooks = {"allow_attr_store": True, "allow_shape": True, "stack_as_array": True,
+                     "numeric_call_first": lambda tr, d_, args, kwargs, n_: (args[0] if d_.split(".")[-1] in ("reshape", "cast", "ones_like") and args else NotImplemented)}
+            rm2 = cls.methods.get("get_relative_momentum2")
+            if rm2 is None:
+                raise AnalysisError("anchor vanished: HelicityDecay.get_relative_momentum2")
+            hooks[rm2.key] = lambda tr, args, kwargs, node: (Q if Translator.bound_args(rm2, args, kwargs).get("from_data") in (True, sp.true) else Q0)
+            for nm in ("get_barrier_factor2", "get_g_ls"):
+                if nm in cls.methods:
+                    hooks[cls.methods[nm].key] = (lambda nm_: (lambda tr, args, kwargs, node: sp.Symbol("probe_" + nm_)))(nm)
+            for g in repo.func_by_name.get("to_complex", []):
+                hooks[g.key] = lambda tr, args, kwargs, node: args[0]
+            so = SelfObj(cls, {"core": core, "no_q0": no_q0, "has_barrier_factor": hbf, "d": sp.Integer(3)})
+            data = {}
+            try:
+                Translator(repo, hooks=hooks, max_depth=2).call_fn(fn, [data, {core: {"m": sp.Symbol("m", positive=True)}}], self_obj=so)
+            except Unmodelled as e:
+                raise AnalysisError("HelicityDecay.get_ls_amp cannot be interpreted (no_q0=%s): %s" % (no_q0, e))
+            ok = data.get("|q0|2") == Q0 and data.get("|q|2") == Q
+            n += 1
+            chk.oblige("Q-shared", "get_ls_amp(no_q0=%s, has_barrier_factor=%s) leaves |q0|2 = %s, |q|2 = %s in the shared dictionary" % (no_q0, hbf, data.get("|q0|2"), data.get("|q|2")), ok)
+            if not ok:
+                chk.violation("Q-shared", fn.key, "q0:no_q0=%s" % no_q0, "with no_q0=%s, has_barrier_factor=%s the shared per-decay dictionary holds |q0|2 = %s, |q|2 = %s instead of the physical momenta (%s, %s): the resonance's own running width Gamma(m) is then normalised at another q0, so Gamma(m0) != Gamma0" % (no_q0, hbf, data.get("|q0|2"), data.get("|q|2"), Q0, Q), file=CORE_, line=fn.lineno)
+    chk.require_count("Q-shared", 4)
+
+
 def check_kernels(repo, chk, tier):
     chk.rule("E6-bw", "canonical form of each Breit-Wigner-family kernel equals the documented 1/(m0^2-m^2-i m0 Gamma(m)) with Gamma built from the exact Blatt-Weisskopf polynomial (per L)")
     chk.rule("E6-barrier", "Bprime(L,q0,q0,d)=1, Bprime_q2^2 = Bprime^2 above threshold, Bprime^2 = P_L((q0 d)^2)/P_L((q d)^2)")
